@@ -126,6 +126,34 @@ pub fn literal<'a>() -> impl Parser<'a, &'a str, Literal, Err<'a>> + Clone {
     })
 }
 
+/// Maximum nesting of brackets and maximum length of an operator chain in an expression.
+/// Expression evaluation (and the grammar itself) is recursive, an expression is a user input.
+const MAX_EXPR_NESTING: usize = 128;
+
+/// Check that brackets in the rest of input are not nested too deeply.
+fn nesting_guard<'a>() -> impl Parser<'a, &'a str, (), Err<'a>> + Clone {
+    any()
+        .repeated()
+        .to_slice()
+        .try_map(|rest: &str, span| {
+            let mut depth = 0usize;
+            for ch in rest.chars() {
+                match ch {
+                    '(' | '[' | '{' => {
+                        depth += 1;
+                        if depth > MAX_EXPR_NESTING {
+                            return Err(Rich::custom(span, "expression is nested too deeply"));
+                        }
+                    }
+                    ')' | ']' | '}' => depth = depth.saturating_sub(1),
+                    _ => {}
+                }
+            }
+            Ok(())
+        })
+        .rewind()
+}
+
 pub fn parser<'a>() -> impl Parser<'a, &'a str, Dqe, Err<'a>> {
     let base_selector = rust_identifier()
         .padded()
@@ -171,7 +199,11 @@ pub fn parser<'a>() -> impl Parser<'a, &'a str, Dqe, Err<'a>> {
             .boxed();
 
         let expr = atom.foldl(
-            field_op.or(index_op).or(slice_op).repeated(),
+            field_op
+                .or(index_op)
+                .or(slice_op)
+                .repeated()
+                .at_most(MAX_EXPR_NESTING),
             |r, expr_fn| expr_fn(r),
         );
 
@@ -180,10 +212,11 @@ pub fn parser<'a>() -> impl Parser<'a, &'a str, Dqe, Err<'a>> {
             .or(op('&').to(Dqe::Address as fn(_) -> _))
             .or(op('~').to(Dqe::Canonic as fn(_) -> _))
             .repeated()
+            .at_most(MAX_EXPR_NESTING)
             .foldr(expr, |op, rhs| op(Box::new(rhs)))
     });
 
-    expr.then_ignore(end())
+    nesting_guard().ignore_then(expr).then_ignore(end())
 }
 
 #[cfg(test)]
